@@ -150,7 +150,7 @@ func init() {
 				t.Body = append(t.Body, tail)
 				ctx.Cell("long-value-last")
 			}
-			if i%80 == 2 {
+			if i%83 == 2 {
 				// a loop of hundreds of iterations (around the sizes buffers are made of), last or followed by text, over
 				// a list or a range, at top level or inside a block: a renderer that collects the output of long loops
 				// still owes the writer's error to the caller
